@@ -42,6 +42,7 @@ type gatedStore struct {
 	faults []bool
 	cands  []int // slot of every SetNX attempt, in order
 	noNX   bool
+	trueOnFault []bool // per injected failure: report (true, err) instead of (false, err) — the shape hybrid's SetNX fallback returns when its marker Set fails
 }
 
 func (s *gatedStore) slotOf(key string) (string, int) {
@@ -70,7 +71,12 @@ func (s *gatedStore) SetNX(key string, value any, ttl time.Duration) (bool, erro
 		f := s.faults[0]
 		s.faults = s.faults[1:]
 		if f {
-			return false, errors.New("verif: injected storage failure")
+			tr := false
+			if len(s.trueOnFault) > 0 {
+				tr = s.trueOnFault[0]
+				s.trueOnFault = s.trueOnFault[1:]
+			}
+			return tr, errors.New("verif: injected storage failure")
 		}
 	}
 	return s.under.SetNX(sk, value, ttl)
@@ -101,8 +107,9 @@ func (s *gatedStore) Set(key string, value any, ttl time.Duration) error {
 
 type thrIn struct {
 	Kind   string   `json:"kind"` // "int" | "str"
-	Ops    []string `json:"ops"`  // "G" | "R"
+	Ops    []string `json:"ops"`  // "G" | "R" | "U<script>" (int kind: IDManager.GenerateUniqueID with a scripted existence check: n = not taken, x = exists, e = the check fails)
 	Faults []bool   `json:"faults"`
+	TrueOnFault []bool `json:"true_on_fault,omitempty"`
 }
 type caseIn struct {
 	Mode    string  `json:"mode"` // "sched" | "node"
@@ -119,6 +126,7 @@ type caseIn struct {
 type thrOut struct {
 	Log   [][2]int `json:"log"` // [kind, slot]: 0=Got 1=Exhausted 2=Released
 	Cands []int    `json:"cands"`
+	Ops   []string `json:"ops"` // the primitive G/R script this caller's ops amount to (U expanded by its specification: release only after "exists")
 }
 type caseOut struct {
 	Threads []thrOut `json:"threads"`
@@ -144,6 +152,7 @@ func runSched(c caseIn) *caseOut {
 	stores := make([]*gatedStore, n)
 	done := make([]chan struct{}, n)
 	logs := make([][][2]int, n)
+	specOps := make([][]string, n)
 	var logMu sync.Mutex
 	live := map[int]int{} // slot -> holder
 	pre := map[int]bool{}
@@ -158,7 +167,7 @@ func runSched(c caseIn) *caseOut {
 	for i, t := range c.Threads {
 		g.resume[i] = make(chan struct{})
 		done[i] = make(chan struct{})
-		st := &gatedStore{Storage: under, under: under, idx: i, g: g, slots: c.Slots, faults: append([]bool(nil), t.Faults...)}
+		st := &gatedStore{Storage: under, under: under, idx: i, g: g, slots: c.Slots, faults: append([]bool(nil), t.Faults...), trueOnFault: append([]bool(nil), t.TrueOnFault...)}
 		stores[i] = st
 		go func(i int, t thrIn, st *gatedStore) {
 			defer close(done[i])
@@ -175,7 +184,90 @@ func runSched(c caseIn) *caseOut {
 				slot int
 			}
 			var held []heldID
+			var mgr *idgen.IDManager
 			for _, op := range t.Ops {
+				if len(op) > 0 && op[0] == 'U' && genI != nil {
+					// IDManager.GenerateUniqueID over this caller's generator, with a scripted existence check
+					if mgr == nil {
+						mgr = idgen.NewIDManager(under, ctx)
+					}
+					script := op[1:]
+					gf := func() (int64, error) {
+						id, err := genI.Generate()
+						_, slot := st.slotOf(fmt.Sprintf("tunnox:id:used:client:%v", id))
+						logMu.Lock()
+						defer logMu.Unlock()
+						specOps[i] = append(specOps[i], "G")
+						if err != nil {
+							logs[i] = append(logs[i], [2]int{1, 0})
+							return id, err
+						}
+						if who, ok := live[slot]; ok {
+							fail(fmt.Sprintf("caller %d was handed id in slot %d while caller %d still holds it (duplicate live id)", i, slot, who))
+						}
+						if pre[slot] {
+							fail(fmt.Sprintf("caller %d was handed slot %d which was already taken before the run", i, slot))
+						}
+						live[slot] = i
+						held = append([]heldID{{i: id, slot: slot}}, held...)
+						logs[i] = append(logs[i], [2]int{0, slot})
+						return id, nil
+					}
+					cf := func(int64) (bool, error) {
+						r := byte('n')
+						if len(script) > 0 {
+							r, script = script[0], script[1:]
+						}
+						switch r {
+						case 'x':
+							logMu.Lock()
+							specOps[i] = append(specOps[i], "R") // specification: an id that exists elsewhere is released and another one drawn
+							logMu.Unlock()
+							return true, nil
+						case 'e':
+							return false, errors.New("verif: existence check failed")
+						}
+						return false, nil
+					}
+					rf := func(id int64) error {
+						err := genI.Release(id)
+						_, slot := st.slotOf(fmt.Sprintf("tunnox:id:used:client:%v", id))
+						logMu.Lock()
+						defer logMu.Unlock()
+						for k, h := range held {
+							if h.i == id {
+								held = append(held[:k:k], held[k+1:]...)
+								break
+							}
+						}
+						delete(live, slot)
+						logs[i] = append(logs[i], [2]int{2, slot})
+						return err
+					}
+					uid, uerr := mgr.GenerateUniqueID(gf, cf, rf, "client")
+					if uerr == nil {
+						// the id handed to the caller must be one it still holds (marker live): an id whose marker was
+						// released before it is returned can be drawn again by anyone
+						logMu.Lock()
+						found := false
+						for _, h := range held {
+							if h.i == uid {
+								found = true
+							}
+						}
+						if !found {
+							_, slot := st.slotOf(fmt.Sprintf("tunnox:id:used:client:%v", uid))
+							fail(fmt.Sprintf("caller %d: GenerateUniqueID(check script %q) returned id %d (slot %d) after releasing its marker: the id is live but unmarked", i, op[1:], uid, slot))
+						}
+						logMu.Unlock()
+					}
+					continue
+				}
+				logMu.Lock()
+				if op == "G" || (op == "R" && len(held) > 0) {
+					specOps[i] = append(specOps[i], op)
+				}
+				logMu.Unlock()
 				switch op {
 				case "G":
 					var err error
@@ -268,7 +360,10 @@ func runSched(c caseIn) *caseOut {
 		}
 	}
 	for i := 0; i < n; i++ {
-		out.Threads = append(out.Threads, thrOut{Log: logs[i], Cands: stores[i].cands})
+		out.Threads = append(out.Threads, thrOut{Log: logs[i], Cands: stores[i].cands, Ops: specOps[i]})
+		if out.Threads[i].Ops == nil {
+			out.Threads[i].Ops = []string{}
+		}
 		if out.Threads[i].Log == nil {
 			out.Threads[i].Log = [][2]int{}
 		}
